@@ -26,7 +26,7 @@ OPS = ['Create', 'CreateKeyPair', 'Register', 'DeriveKey', 'Locate', 'Get',
 STATES = ['PreActive', 'Active', 'Deactivated', 'Compromised']
 NPARAM = 6
 ATTR_SWEEP = 3 * 7 * 6     # operation x object type x version
-PARAM_SWEEP = 4 * 3        # parameter family x version
+PARAM_SWEEP = 5 * 3        # parameter family x version
 GRID = len(OPS) * len(gen.OTYPES) * len(STATES) * len(gen.VERSIONS) * NPARAM
 COUNT = {'quick': 5200, 'thorough': GRID + 30000}
 SWEEP = {'quick': 4200, 'thorough': GRID}
@@ -57,6 +57,13 @@ A = gen.A
 NATIVE = {'Encrypt': 'SymmetricKey', 'Decrypt': 'SymmetricKey',
           'Sign': 'PrivateKey', 'SignatureVerify': 'PublicKey',
           'MAC': 'SymmetricKey'}
+
+
+IDENTIFIER_FORMS = [
+    str(2 ** 63 - 1), str(2 ** 63), str(2 ** 64), str(-2 ** 63),
+    str(-2 ** 63 - 1), str(2 ** 128), '-1', '0', '00', '1e3', '0x10',
+    '1.0', ' 1', '1 ', u'\uff11', '', 'no-such-object', 'a' * 300,
+    "1' OR '1'='1", '%s', u'cl\u00e9']
 
 
 def cell_of(index):
@@ -544,6 +551,43 @@ def generate(rng, tier, index):
                                     'data': '00' * 16, 'iv': '01' * 16,
                                     'cp': {'alg': 3, 'mode': 1,
                                            'padding': pad}})
+        elif kind == 4:
+            # the Unique Identifier itself: every operation that names an
+            # object x identifiers at and beyond the edges of what the
+            # store's integer key can hold, and shapes that are no number
+            otype = 'SymmetricKey'
+            for u in IDENTIFIER_FORMS:
+                for name in ('Get', 'GetAttributes', 'GetAttributeList',
+                             'Activate', 'Destroy'):
+                    probes_.append({'op': name, 'uid': u})
+                probes_.append({'op': 'Revoke', 'uid': u, 'code': 1})
+                probes_.append({'op': 'Encrypt', 'uid': u, 'data': '00' * 16,
+                                'iv': '01' * 16, 'cp': {
+                                    'alg': 3, 'mode': 1, 'padding': 3}})
+                probes_.append({'op': 'MAC', 'uid': u, 'data': '0a0b',
+                                'cp': {'alg': 9}})
+                probes_.append({'op': 'Sign', 'uid': u, 'data': '0a0b',
+                                'cp': {'alg': 4, 'hash': 6, 'padding': 8}})
+                probes_.append({'op': 'DeriveKey', 'otype': 'SymmetricKey',
+                                'uids': [u], 'method': 2, 'params': {
+                                    'cp': {'hash': 6}, 'data': 'aabb'},
+                                'attrs': [A('Cryptographic Length', 128),
+                                          A('Cryptographic Algorithm', 3),
+                                          A('Cryptographic Usage Mask',
+                                            12)]})
+                probes_.append({'op': 'Get', 'uid': '@x', 'wrapspec': {
+                    'method': 1, 'enc': {'uid': u, 'cp': {'mode': 0xD}},
+                    'encoding': 1}})
+                if ver >= (2, 0):
+                    probes_.append({'op': 'SetAttribute', 'uid': u,
+                                    'new': A('Sensitive', True)})
+                    probes_.append({'op': 'DeleteAttribute', 'uid': u,
+                                    'ref': 'Name'})
+                else:
+                    probes_.append({'op': 'ModifyAttribute', 'uid': u,
+                                    'attr': A('Name', ['n', 1], 0)})
+                    probes_.append({'op': 'DeleteAttribute', 'uid': u,
+                                    'name': 'Name', 'index': 0})
         else:
             otype = 'SymmetricKey'
             for alg in range(1, 57):
